@@ -83,6 +83,7 @@ type world struct {
 	stops      []*stopSide
 	lastOp     string
 	closed     bool
+	lenient    bool // faults are being injected: any refusal / lost answer is acceptable, an OK still is not
 }
 
 func bigLimits() rcmgr.ResourceLimits {
@@ -488,6 +489,18 @@ func (w *world) reserve(c *mconn) string {
 	out := w.doReserve(c)
 	synctest.Wait()
 	w.logf("RESERVE p%d over conn#%d(a%d %s) -> %s   acceptable %v", p, c.ord, c.addr, addrs[c.addr].ip, out, want)
+	if w.lenient && (!out.Got || out.Status != pbv2.Status_OK) {
+		// "Delivery of the reservation might fail": the relay may have granted the reservation although
+		// the answer was lost. Acceptable only if a grant was admissible; the model follows the relay.
+		if exp, has := w.relay.VerifState().Rsvp[peers[p].id]; has && exp.Equal(now.Add(w.cfg.TTL)) {
+			if _, ok := want[pbv2.Status_OK]; !ok {
+				w.bad("reserve:granted-"+denyClass(want), "p%d holds a NEW reservation after a failed RESERVE although the statement forbids granting it: %v", p, want)
+			}
+			w.m.applyReserve(p, c, now)
+			return "granted-answer-lost"
+		}
+		return "noresp"
+	}
 	if !out.Got {
 		w.bad("reserve:no-response", "p%d got no answer to RESERVE: %s", p, out.Err)
 		return "noresp"
@@ -545,6 +558,7 @@ type connOutcome struct {
 	pe     *end
 	st     *stopSide
 	tResp  time.Time
+	respBytes int
 }
 
 func (o *connOutcome) String() string {
@@ -612,9 +626,9 @@ func (w *world) doConnect(c *mconn, dst peer.ID, req string, sc stopScript) *con
 		pe.CloseWrite()
 	}
 	var resp pbv2.HopMessage
-	if _, err := readMsg(pe, &resp); err != nil {
+	if n, err := readMsg(pe, &resp); err != nil {
 		out.Err = "read: " + err.Error()
-	} else if resp.GetType() != pbv2.HopMessage_STATUS {
+	} else if out.respBytes = n; resp.GetType() != pbv2.HopMessage_STATUS {
 		out.Err = "response type " + resp.GetType().String()
 	} else {
 		out.Got, out.Status, out.limit, out.tResp = true, resp.GetStatus(), resp.GetLimit(), time.Now()
@@ -661,7 +675,7 @@ func (w *world) connectReq(c *mconn, dst int, req string, sc stopScript) (string
 	w.logf("CONNECT p%d(conn#%d a%d)->p%d req=%s stop=%s -> %s   acceptable %v", src, c.ord, c.addr, dst, req, sc.Kind, out, want)
 	vanished := req == "resetAfterSend"
 	if !out.Got {
-		if !vanished && !malformed {
+		if !vanished && !malformed && !w.lenient {
 			w.bad("connect:no-response", "p%d got no answer to CONNECT: %s", src, out.Err)
 		}
 		out.pe.resetPipe()
@@ -682,6 +696,9 @@ func (w *world) connectReq(c *mconn, dst int, req string, sc stopScript) (string
 		return "noresp", nil
 	}
 	why, acceptable := want[out.Status]
+	if w.lenient && out.Status != pbv2.Status_OK {
+		acceptable = true
+	}
 	if !acceptable {
 		if out.Status == pbv2.Status_OK {
 			w.bad("connect:granted-"+denyClass(want), "CONNECT p%d->p%d answered OK although the statement forbids it: %v", src, dst, want)
@@ -718,7 +735,8 @@ func (w *world) connectReq(c *mconn, dst int, req string, sc stopScript) (string
 		w.bad("connect:limit-announcement", "limit announced to the source %v, configured limited=%v data=%d duration=%s", l, w.cfg.Limited, w.cfg.LimitData, w.cfg.LimitDur)
 	}
 	w.m.ncirc++
-	ci := &mcirc{id: w.m.ncirc, src: src, dst: dst, srcConn: c, tOpen: out.tResp, srcEnd: out.pe, dstEnd: st.pe, hop: out.fs, stop: st.fs}
+	ci := &mcirc{id: w.m.ncirc, src: src, dst: dst, srcConn: c, tOpen: out.tResp, srcEnd: out.pe, dstEnd: st.pe, hop: out.fs, stop: st.fs,
+		hopHs: int64(out.respBytes), stopHs: int64(st.hsBytes)}
 	for _, dc := range w.m.conns[dst] {
 		if dc.fc == st.fs.conn {
 			ci.dstConn = dc
